@@ -63,3 +63,10 @@ package server
 //@ mode effects
 //@ effect[C31:directory-probe-returns-no-object-data] every s.storage.$M(__) where $M == "HeadObject"
 //@ effect[C33:website-never-mutates] every s.storage.$M(__) where $M == "GetObject" || $M == "HeadObject" || $M == "GetBucketWebsiteConfiguration"
+
+// C05. The Content-Range of a served range names exactly the RFC 7233 slice: first byte position, last byte position
+// (clamped to the end of the object; suffix ranges count from the end) and the complete length.
+//@ func generateContentRangeValue
+//@ arith int
+//@ requires specServableRange(br, objectSize)
+//@ ensures[C05:content-range-names-the-slice] result == "bytes " + strconv.Itoa(int(specRangeLo(br, objectSize))) + "-" + strconv.Itoa(int(specRangeHi(br, objectSize))) + "/" + strconv.Itoa(int(objectSize))
